@@ -144,6 +144,10 @@ func c01Run(c *Ctx) {
 		c.Skip("empty program")
 		return
 	}
+	if c.Idx%16 == 6 { // a graph that needs nothing from its caller: every input has a default (or is a plain weight)
+		p.demoteAll()
+		c.Count("programs-without-a-required-input", 1)
+	}
 	desc, nontrivial := p.structure()
 	outs := p.declaredOutputs()
 	c.SetCase("program: %s | outputs %v | feed %s", trunc(desc, 900), outs, feedString(p.Feed))
@@ -247,6 +251,10 @@ func c01Traced(c *Ctx, p *program, g *mon.Graph, outs []string) (map[string]envE
 			env[k] = envEntry{fp: mon.Fp(supplied[k]), val: v}
 		}
 		px = mon.Attach(m)
+		if len(supplied) == 0 && c.Idx%32 < 16 { // no input to supply: the caller may as well pass no map at all
+			supplied = nil
+			c.Count("runs-with-a-nil-input-map", 1)
+		}
 		res, err = m.Run(supplied)
 		return nil, err
 	})
